@@ -175,6 +175,8 @@ fn main() {
         "msg" => vharness::msg::run(seed, n, thorough, &corpus, &dir),
         "lill" => vharness::lill::run(seed, n, thorough, &corpus, &dir),
         "lwin" => vharness::lwin::run(seed, n, thorough, &corpus, &dir),
+        "chmax" => vharness::chmax::run(seed, n, thorough, &corpus, &dir),
+        "rres" => vharness::rres::run(seed, n, thorough, &corpus, &dir),
         other => { eprintln!("unknown sub-harness {other}"); std::process::exit(2); }
     }
 }
